@@ -45,13 +45,20 @@ OpOf(e) == [op |-> e.op, loc |-> e.loc, id |-> e.id, rid |-> e.rid, val |-> Norm
 
 NormFound(f) == {[id |-> f[i].id, bss |-> NormBs(f[i].bss)] : i \in DOMAIN f}
 NoBody(F) == {[id |-> x.id, bss |-> x.bss] : x \in F}
-RespMatch(op, r, lr) ==
+\* the logged work tree: per (rule, when-binding) node the condition outcome and the executions (as in EngineTrace)
+LoggedNode(n) == [id |-> n.id, wb |-> NormB(n.wb), c |-> n.c,
+                  execs |-> SeqBag([i \in DOMAIN n.execs |-> [b |-> NormB(n.execs[i].b), code |-> n.execs[i].code]])]
+LoggedTree(tr) == {LoggedNode(tr[i]) : i \in DOMAIN tr}
+\* an event is judged on the rules it found AND on what it ran for them: the actions are those of the rule as
+\* it stands at the event's instant (a parsed rule that outlives its replacement shows here)
+RespMatch(op, r, lr, whole) ==
   /\ r.c = lr.c
   /\ r.c = "ok" =>
        CASE op.op \in {"AddFact", "AddRule"} -> r.id = lr.id
          [] op.op \in {"GetFact", "GetRule"} -> r.val = Norm(lr.val)
          [] op.op = "SearchFacts" -> NoBody(r.found) = NormFound(lr.found)
-         [] op.op = "ProcessEvent" -> NoBody(r.found) = NormFound(lr.found)
+         [] op.op = "ProcessEvent" -> /\ NoBody(r.found) = NormFound(lr.found)
+                                      /\ whole => r.tree = LoggedTree(lr.tree)
          [] OTHER -> TRUE
 
 Without1(f, key) == [x \in DOMAIN f \ {key} |-> f[x]]
@@ -67,12 +74,12 @@ Call(e) == /\ e.ev = "call"
 Lin == \E key \in DOMAIN pend :
           \E o \in Step(mem, Ro(mem), pend[key], NoG(mem)) :
              /\ mem' = o.mem
-             /\ lin' = lin @@ (key :> [op |-> pend[key], resp |-> o.resp])
+             /\ lin' = lin @@ (key :> [op |-> pend[key], resp |-> o.resp, whole |-> TRUE])
              /\ pend' = Without1(pend, key)
              /\ UNCHANGED <<l, via, half>>
 Ret(e) == /\ e.ev = "ret"
           /\ <<e.g, e.k>> \in DOMAIN lin
-          /\ RespMatch(lin[<<e.g, e.k>>].op, lin[<<e.g, e.k>>].resp, e.res)
+          /\ RespMatch(lin[<<e.g, e.k>>].op, lin[<<e.g, e.k>>].resp, e.res, lin[<<e.g, e.k>>].whole)
           /\ lin' = Without1(lin, <<e.g, e.k>>)
           /\ l' = l + 1 /\ UNCHANGED <<mem, pend, via, half>>
 \* everything has returned: memory and storage agree with the order chosen
@@ -91,16 +98,19 @@ Find1 == \E key \in DOMAIN pend :
            /\ AllowDev /\ pend[key].op = "ProcessEvent" /\ ~Has(pend[key].val, "trigger!")
            /\ LET op == pend[key]
                   vs == VisitSet(mem, op.now, op.loc, TRUE)
-                  cands == UNION {{[id |-> i, bss |-> Match(WhenPattern(RuleBody(mem[a][i])), op.val)] :
+                  cands == UNION {{[id |-> i, bss |-> Match(WhenPattern(RuleBody(mem[a][i])), op.val), body |-> RuleBody(mem[a][i])] :
                                      i \in MatchingRules(mem[a], op.now, op.val)} : a \in vs.locs}
               IN /\ ~vs.err
-                 /\ half' = half @@ (key :> [op |-> op, cands |-> cands])
+                 /\ half' = half @@ (key :> [op |-> op, cands |-> cands, locs |-> vs.locs])
                  /\ pend' = Without1(pend, key)
            /\ UNCHANGED <<mem, lin, via, l>>
 Check2 == \E key \in DOMAIN half :
             /\ LET op == half[key].op
                    found == {c \in half[key].cands : ~RuleDisabled(mem[op.loc], op.now, c.id)}
-               IN lin' = lin @@ (key :> [op |-> op, resp |-> [R0 EXCEPT !.found = {[id |-> c.id, bss |-> c.bss, body |-> Null] : c \in found}]])
+                   \* what is run is the rule as it was found (first instant), conditions on the facts of the second
+                   tree == UNION {RuleNodes(mem, op.now, op.loc, half[key].locs, op.val, c.id, c.body, c.bss) : c \in found}
+               IN lin' = lin @@ (key :> [op |-> op, whole |-> TRUE,
+                                         resp |-> [R0 EXCEPT !.found = {[id |-> c.id, bss |-> c.bss, body |-> Null] : c \in found}, !.tree = tree]])
             /\ half' = Without1(half, key)
             /\ UNCHANGED <<mem, pend, via, l>>
 
